@@ -712,7 +712,7 @@ fn c10_try(args: &Args) {
     let r: Replay = serde_json::from_str(&std::fs::read_to_string(&path).unwrap_or_else(|e| harness_error(&format!("{path}: {e}")))).unwrap_or_else(|e| harness_error(&format!("{path}: {e}")));
     let mut scratch = Scratch::new("try");
     let (violations, digest, run, facts) = c10::replay_with_facts(&r, &mut scratch, false);
-    let out = c10::TryOut { violations, digest, decisions: run.result.trace.decisions.clone(), vs_calm: run.result.trace.vs_calm.clone(), stdout: String::from_utf8_lossy(&run.result.sim.stdout).into_owned(), verdict: facts.verdict };
+    let out = c10::TryOut { tasks: run.result.trace.tasks_seen, violations, digest, decisions: run.result.trace.decisions.clone(), vs_calm: run.result.trace.vs_calm.clone(), stdout: String::from_utf8_lossy(&run.result.sim.stdout).into_owned(), verdict: facts.verdict };
     println!("{}", serde_json::to_string(&out).unwrap());
 }
 
